@@ -158,6 +158,13 @@ func build(tier string) []*vkit.Scenario {
 		{qcfg{f: 2, writers: []string{"ggg"}, qmax: 2, closeBy: "eof"}, 1, 2},
 		{qcfg{f: 2, writers: []string{"gg"}, qmax: 1, closeBy: "close"}, 1, 2},
 		{qcfg{f: 2, writers: []string{"g"}, closeBy: "none", inbound: 1, echo: true}, 1, 2},
+		// two / three concurrent callers of the public Conn.HandleRead (Upgrade's own + threads)
+		{qcfg{f: 2, writers: []string{"s"}, closeBy: "none", inbound: 2, readers: 1}, 2, 3},
+		{qcfg{f: 2, writers: []string{"s"}, closeBy: "none", inbound: 2, readers: 2}, 2, 2},
+		{qcfg{f: 2, writers: []string{"s"}, closeBy: "eof", inbound: 2, readers: 1}, 2, 2},
+		{qcfg{f: 2, writers: []string{"s"}, closeBy: "none", inbound: 2, early: true, readers: 1}, 2, 3},
+		{qcfg{f: 2, writers: []string{"m"}, closeBy: "none", inbound: 2, echo: true, readers: 1}, 1, 2},
+		{qcfg{f: 2, direct: true, writers: []string{"m"}, closeBy: "none", inbound: 2, readers: 1}, 2, 3},
 		// the same Upgrade path without the send queue (BlockingModAsyncWrite=false)
 		{qcfg{f: 2, direct: true, writers: []string{"m", "m"}, closeBy: "none"}, 2, 3},
 		{qcfg{f: 2, direct: true, writers: []string{"m", "m"}, closeBy: "eof"}, 2, 3},
@@ -243,6 +250,34 @@ func build(tier string) []*vkit.Scenario {
 				}
 				add(a.name(), orderBody(a), a.p, ntA)
 			}
+		}
+	}
+
+	// ---- (e) callback order on the client side (websocket.Dialer)
+	ntE := func(m map[string]int) bool {
+		return m["client_upgrades"] > 0 && m["messages_delivered"] > 0 && m["onclose_runs"] > 0
+	}
+	for _, m := range ekit.Modes {
+		for bi, e := range []ecfg{
+			{with: 0, later: 2, end: "fin"},
+			{with: 1, later: 1, end: "fin"},
+			{with: 2, later: 0, end: "fin"},
+			{with: 2, later: 1, end: "rst"},
+			{with: 1, later: 1, end: "hclose"},
+			{with: 1, later: 1, end: "tclose"},
+			{with: 2, later: 0, end: "fin", async: true},
+		} {
+			if !thorough && m != ekit.LT && bi != 1 && bi != 2 {
+				continue
+			}
+			e.mode, e.p = m, 2
+			if e.end == "tclose" {
+				e.p = 1
+			}
+			if thorough {
+				e.p++
+			}
+			add(e.name(), clientOrderBody(e), e.p, ntE)
 		}
 	}
 
